@@ -14,6 +14,12 @@ Four bounded-exhaustive drivers on the REAL implementation:
     live member ever becomes DEAD; a view that was DEAD never becomes ALIVE
     again unless a higher incarnation of the subject was announced.
 
+(1b) ``slowlinks-n<N>`` (engine E2).  As (1) but one-way delay in {30 % (default), 10 %, 40 %} of the
+    interval: every message still arrives well inside one probe interval and below the ack timeout, but the
+    round trip (60-80 %) exceeds the ack timeout, so probes are suspected at the ack timeout and refuted by
+    the late ack; suspicion timeouts of 1-2 intervals.  Only the "never DEAD" and "DEAD is not followed by
+    ALIVE" clauses are checked (suspicion of a live member is allowed).
+
 (2) ``crash-n<N>`` (engine E2).  Same world; one member stops for good (its
     ``_crashed`` flag is set by a harness event, exactly what ``CrashNode``
     does; its own timers die with it) at every probe-round boundary -1 us /
@@ -63,6 +69,7 @@ PID = "C13"
 SEC = 1_000_000_000
 EPS_NS = 1_000  # 1 us: far from every message arrival (delays are multiples of 5 ms)
 LAT_FRACTIONS = (0.01, 0.1, 0.2)
+SLOW_FRACTIONS = (0.3, 0.1, 0.4)  # default answer first
 PHI_TOL = 1e-9
 
 _PERMS: dict[int, list[tuple[int, ...]]] = {}
@@ -663,13 +670,29 @@ def main(tier, seed, only=None):
         fams.append(("healthy-n4", "healthy", configs(4, ALL_I, ALL_S, ALL_P), 2, 32))
         fams.append(("healthy-n5", "healthy", configs(5, ALL_I, ALL_S, ALL_P), 1, 1))
         fams.append(("healthy-n5-dev2", "healthy", [(5, 1.0, 2.0, 3.0, 15)], 2, 128))
+    # slow links: one-way delay up to 40 % of the interval (still below the ack timeout and the probe interval),
+    # DEFAULT answer 30 %, so that round trips (60-80 %) exceed the ack timeout: every probe is suspected at the
+    # ack timeout and refuted by the late ack; short suspicion timeouts.  Suspicion is allowed, death is not.
+    def slow(N, sets):
+        return [(N, I, S, P, 3 * N, SLOW_FRACTIONS) for (I, S, P) in sets]
+
+    slow_sets = [(1.0, 1.0, 8.0), (1.0, 2.0, 3.0), (0.5, 1.0, 3.0)]
+    if quick:
+        fams.append(("slowlinks-n3", "healthy", slow(3, slow_sets), 1, 1))
+        fams.append(("slowlinks-n4", "healthy", slow(4, slow_sets), 1, 1))
+    else:
+        fams.append(("slowlinks-n3", "healthy", slow(3, slow_sets), 2, 16))
+        fams.append(("slowlinks-n4", "healthy", slow(4, slow_sets), 1, 1))
+        fams.append(("slowlinks-n4-dev2", "healthy", slow(4, slow_sets[:1]), 2, 128))
+        fams.append(("slowlinks-n5", "healthy", slow(5, slow_sets[:2]), 1, 4))
     for name, kind, cfgs, bound, nparts in fams:
         if not want(name):
             continue
         jobs = [(kind, cfg, None, bound, part, nparts) for cfg in cfgs for part in range(nparts)]
         run_family(run, name, kind, jobs,
                    {"cluster_size": cfgs[0][0], "parameter_sets(interval,suspicion,phi)": [c[1:4] for c in cfgs],
-                    "one_way_delay_fraction_of_interval": LAT_FRACTIONS, "shuffle": "all permutations",
+                    "one_way_delay_fraction_of_interval(default first)": cfgs[0][5] if len(cfgs[0]) > 5 else LAT_FRACTIONS,
+                    "shuffle": "all permutations",
                     "probe_rounds": cfgs[0][4], "deviation_bound": bound}, seed)
     # -- crash ----------------------------------------------------------
     I1 = (1.0,)
